@@ -47,7 +47,7 @@ func genCase(t *rapid.T) Case {
 	c := Case{Ops: []Op{{Kind: "add"}, {Kind: "add"}}}
 	for i := 0; i < n; i++ {
 		c.Ops = append(c.Ops, Op{
-			Kind:   rapid.SampledFrom([]string{"add", "add", "remove", "remove", "terminate", "terminate", "call", "call", "call", "rawcall", "rawcall", "subscribe", "removebad", "race", "race", "busyremove", "subrace", "readd", "readd"}).Draw(t, "kind"),
+			Kind:   rapid.SampledFrom([]string{"add", "add", "remove", "remove", "terminate", "terminate", "call", "call", "call", "rawcall", "rawcall", "subscribe", "removebad", "race", "race", "busyremove", "subrace", "readd", "readd", "slowadd", "slowadd"}).Draw(t, "kind"),
 			Target: rapid.IntRange(0, 12).Draw(t, "target"),
 		})
 	}
@@ -72,6 +72,24 @@ type obj struct {
 }
 
 const bound = 10 * time.Second
+
+// slowActor is an actor whose activation lasts until the harness lets it end.
+type slowActor struct {
+	bus.Actor
+	entered chan struct{}
+	gate    chan struct{}
+	once    sync.Once
+}
+
+func (s *slowActor) Activate(a bus.Activation) error {
+	first := false
+	s.once.Do(func() { first = true })
+	if first {
+		close(s.entered)
+		<-s.gate
+	}
+	return s.Actor.Activate(a)
+}
 
 func waitClosed(ch chan string, d time.Duration) bool {
 	deadline := time.After(d)
@@ -201,6 +219,84 @@ func checkCase(c Case) error {
 			o = objs[op.Target%len(objs)]
 		}
 		switch op.Kind {
+		case "slowadd":
+			// an object whose activation takes its time is being added; meanwhile a
+			// live object is removed and another one added: afterwards all three
+			// are what they should be
+			name := fmt.Sprintf("o%d", len(objs))
+			p, inner := probe.NewPong(name, env.Journal)
+			slow := &slowActor{Actor: inner, entered: make(chan struct{}), gate: make(chan struct{})}
+			type addRes struct {
+				id  uint32
+				err error
+			}
+			added := make(chan addRes, 1)
+			go func() { id, err := svc.Add(slow); added <- addRes{id, err} }()
+			select {
+			case <-slow.entered:
+			case <-time.After(bound):
+				return vt.Violationf("C16:add-error", "step %d: Add did not activate the object within %v", i, bound)
+			}
+			var victim *obj
+			for _, x := range objs {
+				if x.live {
+					victim = x
+				}
+			}
+			if victim != nil && op.Target%3 != 0 {
+				if err := svc.Remove(victim.id); err != nil {
+					close(slow.gate)
+					return vt.Violationf("C16:remove-error", "step %d: Remove(%d) of a live object (while another object is being activated) failed: %v", i, victim.id, err)
+				}
+				victim.live = false
+			} else {
+				victim = nil
+			}
+			var meanwhile *obj
+			if op.Target%2 == 0 {
+				n2 := fmt.Sprintf("o%dm", len(objs))
+				p2, a2 := probe.NewPong(n2, env.Journal)
+				id2, err := svc.Add(a2)
+				if err != nil {
+					close(slow.gate)
+					return vt.Violationf("C16:add-error", "step %d: Add (while another object is being activated) failed: %v", i, err)
+				}
+				meanwhile = &obj{id: id2, name: n2, probe: p2, live: true, actor: a2}
+			}
+			close(slow.gate)
+			var r addRes
+			select {
+			case r = <-added:
+			case <-time.After(bound):
+				return vt.Violationf("C16:add-error", "step %d: Add did not return within %v after the activation ended", i, bound)
+			}
+			if r.err != nil {
+				return vt.Violationf("C16:add-error", "step %d: Add of an object with a slow activation failed: %v", i, r.err)
+			}
+			fresh := []*obj{{id: r.id, name: name, probe: p, live: true, actor: slow}}
+			if meanwhile != nil {
+				fresh = append(fresh, meanwhile)
+			}
+			for _, n := range fresh {
+				px, err := sess.Proxy("Svc", n.id)
+				if err != nil {
+					return vt.Violationf("C16:new-object-unreachable", "step %d: Proxy(Svc,%d) of an object added around a slow activation: %v", i, n.id, err)
+				}
+				n.proxy, n.generic = pong.MakePingPong(sess, px), bus.MakeObject(px)
+				objs = append(objs, n)
+				if err := call(n, false, i); err != nil {
+					return err
+				}
+			}
+			if victim != nil {
+				if err := afterRemoval(victim, "Remove during another object's activation"); err != nil {
+					return err
+				}
+				if err := call(victim, true, i); err != nil {
+					return err
+				}
+			}
+			vt.Label("slow-activation")
 		case "add", "readd":
 			name := fmt.Sprintf("o%d", len(objs))
 			p, actor := probe.NewPong(name, env.Journal)
